@@ -339,8 +339,8 @@ func main() {
 		Trusting bool
 	}
 	levels := lib.AllLevelMaps()
-	presentsOCI := []string{"A", "B", "A-digest", "A-size", "A-mediaType", "A-mediaType-empty", "A-annotations"}
-	presentsBlob := []string{"A-empty", "A", "B", "A-byte", "A-length", "A-mt-unstated", "A-mt-different", "A-mt-different-B", "A-mt-parameterised"}
+	presentsOCI := []string{"A", "B", "A-digest", "A-size", "A-mediaType", "A-mediaType-empty", "A-annotations", "A-mediaType-docker-counterpart"}
+	presentsBlob := []string{"A-empty", "A", "B", "A-byte", "A-length", "A-mt-unstated", "A-mt-different", "A-mt-different-B", "A-mt-parameterised", "A-mt-octet-stream"}
 	metaReqs := []string{"value-with-trailing-blank", "key-with-leading-blank", "none", "subset", "exact", "value-changed", "extra-key", "empty-value-missing-key", "reserved-prefixed-missing", "reserved-prefixed-next-to-satisfied", "none", "none"}
 	var cases []caseT
 	rngC := r.Rand("cases")
@@ -440,6 +440,9 @@ func main() {
 			presented.Size++
 		case "A-mediaType":
 			presented.MediaType = ocispec.MediaTypeImageIndex
+		case "A-mediaType-docker-counterpart":
+			// the Docker schema 2 type that registries convert to and from the OCI manifest type: another media type string
+			presented.MediaType = "application/vnd.docker.distribution.manifest.v2+json"
 		case "A-mediaType-empty":
 			presented.MediaType = "" // e.g. a descriptor a caller builds from digest and size only: the media type still has to match
 		case "A-annotations":
@@ -455,6 +458,8 @@ func main() {
 			blobMTStated = false
 		case "A-mt-different", "A-mt-different-B":
 			statedMT = "text/plain"
+		case "A-mt-octet-stream":
+			statedMT = "application/octet-stream" // the generic type, stated explicitly: a stated type like any other
 		case "A-mt-parameterised":
 			statedMT = blobMT(c.Present, a)
 		}
@@ -680,6 +685,9 @@ func blobMT(present string, a struct {
 }) string {
 	if present == "A-mt-different" || present == "A-mt-different-B" {
 		return "text/plain"
+	}
+	if present == "A-mt-octet-stream" {
+		return "application/octet-stream"
 	}
 	if present == "A-mt-parameterised" {
 		return a.Desc.MediaType + "; charset=utf-8" // the same type WITH a parameter is another media type string
